@@ -62,6 +62,25 @@ func (u *Unit) call(f *Frame, st *State, cc *ssa.CallCommon, res ssa.Value, pos 
 	if r, ok := u.intrinsic(f, st, key, callee, args, resTy, pos); ok {
 		return r
 	}
+	// ghost code calling a ghost specification function: evaluate it the way specifications
+	// do (AST translation), so that asserts in lemma bodies and contract clauses agree syntactically
+	if u.ctx.isGhostFile(callee) && u.ctx.contractFor(callee) == nil && callee.Signature.Results().Len() == 1 {
+		ok := true
+		for _, a := range args {
+			if a.T == "" {
+				ok = false
+			}
+		}
+		if fobj, isFunc := callee.Object().(*types.Func); ok && isFunc {
+			env := &SpecEnv{u: u, st: st, old: st, vars: map[string]Val{}, oldVars: map[string]Val{}, pkg: u.ctx.pkgOf(callee), fr: f}
+			ne := len(u.errs)
+			v := env.applyFunc(fobj, args)
+			if len(u.errs) == ne {
+				return []Val{{T: u.em.define(callee.Name(), u.em.sortOf(v.Ty), v.T), Ty: callee.Signature.Results().At(0).Type()}}
+			}
+			u.errs = u.errs[:ne]
+		}
+	}
 	// contract
 	if con := u.ctx.contractFor(callee); con != nil && !con.Inline {
 		return u.contractCall(f, st, con, callee, args, resTy, pos, u.ctx.funcKey(callee))
